@@ -358,6 +358,29 @@ func checkC12(c *Ctx) error {
 			jobs = append(jobs, job{fs, pats, flagSets[(np+variant)%len(flagSets)], "many-patterns", 0})
 		}
 	}
+	// acyclic but path-rich: 12-30 layers of three services, every service of a layer depends on every service of the next
+	// (3^30 paths, not one cycle), with an explicitly shared service on top, a contextual one at the bottom, or neither
+	for _, layers := range []int{12, 20, 30} {
+		for variant := 0; variant < 3; variant++ {
+			var sb strings.Builder
+			sb.WriteString("services:\n")
+			for l := 0; l < layers; l++ {
+				for k := 0; k < 3; k++ {
+					fmt.Fprintf(&sb, "  l%02d.%d:\n    constructor: \"New\"\n", l, k)
+					if l+1 < layers {
+						fmt.Fprintf(&sb, "    arguments: [\"@l%02d.0\", \"@l%02d.1\", \"@l%02d.2\"]\n", l+1, l+1, l+1)
+					}
+					if variant >= 1 && l == 0 {
+						sb.WriteString("    scope: \"shared\"\n")
+					}
+					if variant == 2 && l == layers-1 && k == 2 {
+						sb.WriteString("    scope: \"contextual\"\n")
+					}
+				}
+			}
+			jobs = append(jobs, job{[]string{sb.String()}, []string{"f0.yaml"}, flagSets[(layers+variant)%len(flagSets)], "layered-dag", 0})
+		}
+	}
 	inCorpus := map[string]bool{}
 	for _, s := range corpus {
 		inCorpus[s] = true
